@@ -69,6 +69,8 @@ var c18Spine = map[string]bool{
 
 type c18prog struct {
 	c      *ctxT
+	occ    map[string][]token.Pos // qualified condition text -> source positions (in order of first translation)
+	sites  map[string][]token.Pos // leaf call name -> source positions
 	vars   map[*ast.Object]*irVar
 	nvars  int
 	caches int
@@ -79,6 +81,7 @@ type c18prog struct {
 type c18fn struct {
 	p            *c18prog
 	rel          string
+	qual         string // "Recv.Func" of the function being translated: qualifies uninterpreted conditions
 	ctxKind      map[*ast.Object]string
 	ctxNames     map[string]string // fallback by name (identifiers the parser could not resolve)
 	commitOf     map[*ast.Object]int
@@ -183,6 +186,48 @@ func (f *c18fn) prescan(n ast.Node) {
 		}
 		return true
 	})
+}
+
+// other builds an uninterpreted condition.  Its text is qualified by the function it occurs in, and numbered when the
+// same text occurs at several places of that function, so that two different `ok` variables are two different
+// environment inputs.
+func (f *c18fn) other(text string, pos token.Pos) *irCond {
+	key := f.qual + ": " + text
+	ps := f.p.occ[key]
+	idx := -1
+	for i, q := range ps {
+		if q == pos {
+			idx = i
+		}
+	}
+	if idx < 0 {
+		f.p.occ[key] = append(ps, pos)
+		idx = len(ps)
+	}
+	if idx > 0 {
+		key = fmt.Sprintf("%s #%d", key, idx+1)
+	}
+	return &irCond{K: "other", Text: key}
+}
+
+// leafName numbers the second, third … call SITE of the same callee text inside one program ("k.X #2"): the
+// behaviour of a leaf is a parameter per (name, iteration), and two sites must not be forced to behave alike.
+func (p *c18prog) leafName(name string, pos token.Pos) string {
+	ps := p.sites[name]
+	idx := -1
+	for i, q := range ps {
+		if q == pos {
+			idx = i
+		}
+	}
+	if idx < 0 {
+		p.sites[name] = append(ps, pos)
+		idx = len(ps)
+	}
+	if idx > 0 {
+		return fmt.Sprintf("%s #%d", name, idx+1)
+	}
+	return name
 }
 
 func (p *c18prog) newFn(rel string) *c18fn {
@@ -343,6 +388,10 @@ func (f *c18fn) inline(rel string, fd *ast.FuncDecl, ce *ast.CallExpr, errV *irV
 		return &irStmt{K: "call", Name: name + " (too deep)", Ctx: "outer", Err: errV}
 	}
 	g := p.newFn(rel)
+	g.qual = fd.Name.Name
+	if r := recvName(fd); r != "" {
+		g.qual = r + "." + fd.Name.Name
+	}
 	g.prescan(fd.Body)
 	idx := 0
 	for _, fl := range fd.Type.Params.List {
@@ -456,13 +505,13 @@ func (f *c18fn) call(ce *ast.CallExpr, errV, respV *irVar, force bool) *irStmt {
 				args = append(args, p.varOf(id))
 			}
 		}
-		return &irStmt{K: "call", Name: name, Ctx: cx, Err: errV, Resp: respV, Args: args}
+		return &irStmt{K: "call", Name: p.leafName(name, ce.Pos()), Ctx: cx, Err: errV, Resp: respV, Args: args}
 	}
 	if force && (errV != nil || respV != nil) {
 		if c18IsErrCtor(name) && errV != nil {
 			return &irStmt{K: "setErr", Err: errV, Ok: false}
 		}
-		return &irStmt{K: "call", Name: name, Ctx: "none", Err: errV, Resp: respV}
+		return &irStmt{K: "call", Name: p.leafName(name, ce.Pos()), Ctx: "none", Err: errV, Resp: respV}
 	}
 	return nil
 }
@@ -535,7 +584,7 @@ func (f *c18fn) cond(e ast.Expr) *irCond {
 			}
 		}
 	}
-	return &irCond{K: "other", Text: p.c.src(e)}
+	return f.other(p.c.src(e), e.Pos())
 }
 
 func (f *c18fn) assign(s *ast.AssignStmt) *irStmt {
@@ -616,7 +665,7 @@ func (f *c18fn) assign(s *ast.AssignStmt) *irStmt {
 		case *ast.SelectorExpr:
 			// in-memory field of the tracked object, stored later (gov: proposal.Status = v1.StatusFailed)
 			if id, ok := lx.X.(*ast.Ident); ok && id.Name == "proposal" && lx.Sel.Name == "Status" {
-				out = append(out, &irStmt{K: "call", Name: "set " + p.c.src(l) + " = " + p.c.src(r), Ctx: "outer"})
+				out = append(out, &irStmt{K: "call", Name: p.leafName("set "+p.c.src(l)+" = "+p.c.src(r), l.Pos()), Ctx: "outer"})
 			}
 		}
 	}
@@ -647,7 +696,7 @@ func (f *c18fn) ret(s *ast.ReturnStmt) *irStmt {
 		if f.isTracked(x) {
 			return seqOf(append(pre, &irStmt{K: "ret", Ret: "var", Err: p.varOf(x)})...)
 		}
-		return seqOf(append(pre, &irStmt{K: "ret", Ret: "opaque", Name: x.Name})...)
+		return seqOf(append(pre, &irStmt{K: "ret", Ret: "opaque", Name: f.qual + ": " + x.Name})...)
 	case *ast.CallExpr:
 		name := p.c.src(x.Fun)
 		pre = append(pre, f.nestedCalls(x, x)...)
@@ -660,7 +709,7 @@ func (f *c18fn) ret(s *ast.ReturnStmt) *irStmt {
 		}
 		return seqOf(append(pre, &irStmt{K: "ret", Ret: "var", Err: tmp})...)
 	}
-	return seqOf(append(pre, &irStmt{K: "ret", Ret: "opaque", Name: p.c.src(last)})...)
+	return seqOf(append(pre, &irStmt{K: "ret", Ret: "opaque", Name: f.qual + ": " + p.c.src(last)})...)
 }
 
 func (f *c18fn) caseCond(tag ast.Expr, list []ast.Expr) *irCond {
@@ -673,7 +722,7 @@ func (f *c18fn) caseCond(tag ast.Expr, list []ast.Expr) *irCond {
 		} else if id, ok := tag.(*ast.Ident); ok && f.isTracked(id) && p.c.src(e) == "nil" {
 			one = &irCond{K: "ok", V: p.varOf(id)}
 		} else {
-			one = &irCond{K: "other", Text: p.c.src(tag) + " == " + p.c.src(e)}
+			one = f.other(p.c.src(tag)+" == "+p.c.src(e), e.Pos())
 		}
 		if c == nil {
 			c = one
@@ -705,7 +754,7 @@ func (f *c18fn) cases(tag ast.Expr, tagText string, clauses []ast.Stmt, typeSwit
 			for _, e := range cc.List {
 				ts = append(ts, p.c.src(e))
 			}
-			c = &irCond{K: "other", Text: tagText + ".(type) is " + strings.Join(ts, " | ")}
+			c = f.other(tagText+".(type) is "+strings.Join(ts, " | "), cc.Pos())
 		} else {
 			c = f.caseCond(tag, cc.List)
 		}
@@ -1007,7 +1056,7 @@ def seqs : List Stmt → Stmt
 `
 
 func (c *ctxT) c18NewProg() *c18prog {
-	return &c18prog{c: c, vars: map[*ast.Object]*irVar{}}
+	return &c18prog{c: c, vars: map[*ast.Object]*irVar{}, occ: map[string][]token.Pos{}, sites: map[string][]token.Pos{}}
 }
 
 // c18Programs emits the four boundary programs.
@@ -1027,6 +1076,7 @@ func (c *ctxT) c18Programs() string {
 		}
 		p := c.c18NewProg()
 		f := p.newFn(rel)
+		f.qual = fd.Name.Name
 		f.prescan(prescanRoot)
 		for _, fl := range fd.Type.Params.List {
 			if isCtxType(fl.Type, c.src(fl.Type)) {
@@ -1124,6 +1174,7 @@ func (c *ctxT) c18Programs() string {
 					if fd, ok := dcl.(*ast.FuncDecl); ok && fd.Name.Name == "RecvPacket" && fd.Body != nil {
 						p := c.c18NewProg()
 						f := p.newFn("x/ibc/middleware") // nothing of core itself is inlined
+						f.qual = "RecvPacket"
 						f.prescan(fd.Body)
 						for _, fl := range fd.Type.Params.List {
 							if isCtxType(fl.Type, c.src(fl.Type)) {
